@@ -280,7 +280,7 @@ func (p pipeOpt) GetOption(n string) (interface{}, error) { return p.p.GetOption
 
 // c19Effects: the clauses that need peers or time.
 func c19Effects(w *W) {
-	which := []string{"zero-deadline", "zero-survey-time", "resize-connected", "unsupported-ops", "device"}[w.Choose(simrt.SShape, 5)]
+	which := []string{"zero-deadline", "zero-survey-time", "resize-connected", "unsupported-ops", "device", "readqlen-effective"}[w.Choose(simrt.SShape, 6)]
 	w.SetShape("clause", which)
 	mn := w.UseMsgNet()
 	switch which {
@@ -456,6 +456,83 @@ func c19Effects(w *W) {
 			w.Failf("C19/unsupported-op-side-effect:"+kind, "GetOption(Raw) after an unsupported operation: %v", err)
 		}
 		w.Delivery++
+	case "readqlen-effective":
+		// an accepted receive queue length takes effect and stays in effect: a
+		// socket that is not read keeps at most that many messages, whatever
+		// option calls happen in between
+		kind := []string{"sub", "sub", "xsub", "pull", "xpull", "pair", "bus"}[w.Choose(simrt.SShape, 7)]
+		q := []int{1, 2, 5, 200}[w.Choose(simrt.SShape, 4)]
+		w.SetShape("kind", kind)
+		w.SetShape("qlen", q)
+		s := w.Sock(kind)
+		defer s.Close()
+		mustSet(w, s, mangos.OptionReadQLen, q)
+		mustSet(w, s, mangos.OptionRecvDeadline, time.Millisecond)
+		if kind == "sub" {
+			mustSet(w, s, mangos.OptionSubscribe, "a")
+			mustSet(w, s, mangos.OptionSubscribe, "ab")
+			mustSet(w, s, mangos.OptionSubscribe, "zz")
+		}
+		addr := w.Addr("msg")
+		if err := s.Listen(addr); err != nil {
+			return
+		}
+		p := mn.Connect(addr)
+		w.Settle()
+		n := q + 3 + w.Choose(simrt.SProg, 20)
+		if q == 200 {
+			n = 150
+		}
+		inject := func(from int) {
+			for i := 0; i < n; i++ {
+				p.Inject([]byte(fmt.Sprintf("ab%04d", from+i)))
+			}
+			w.Sleep(time.Millisecond)
+			w.Settle()
+		}
+		inject(0)
+		if kind == "sub" {
+			// a subscription change in between must not change the depth
+			c := w.Do("Unsubscribe", func() (interface{}, error) { return nil, s.SetOption(mangos.OptionUnsubscribe, "zz") })
+			c.Wait(100 * time.Millisecond)
+			w.Settle()
+			if !c.Returned() {
+				if !w.WedgeCheck("C12") {
+					w.Failf("C12/call-never-returns:SetOption", "sub (ReadQLen %d, %d messages queued): Unsubscribe of an unrelated topic does not return", q, n)
+				}
+				return
+			}
+			inject(n)
+		}
+		if got, err := s.GetOption(mangos.OptionReadQLen); err != nil || got != q {
+			w.Failf("C19/get-differs-from-set:"+kind+":READQ-LEN", "ReadQLen set to %d, Get returns (%v, %v)", q, got, err)
+			return
+		}
+		cnt := 0
+		for i := 0; i < 2*n+10; i++ {
+			c := w.Do("Recv", func() (interface{}, error) { return s.Recv() })
+			c.Wait(10 * time.Millisecond)
+			w.Settle()
+			if !c.Returned() || c.Err != nil {
+				break
+			}
+			cnt++
+		}
+		// one more may sit in the pipe receiver's hands for patterns that block instead of dropping
+		slack := 0
+		if kind != "sub" && kind != "xsub" {
+			slack = 1 + n // blocking patterns exert back-pressure: everything arrives eventually
+		}
+		if slack == 0 && cnt > q {
+			w.Failf("C19/readqlen-not-effective:"+kind, "%s with the accepted ReadQLen %d was not read while %d matching messages arrived; %d could then be received", kind, q, n, cnt)
+			return
+		}
+		if cnt == 0 {
+			w.Failf("C19/readqlen-not-effective:"+kind, "%s with ReadQLen %d: nothing could be received after %d messages arrived", kind, q, n)
+			return
+		}
+		w.Probe("readqlen-effective")
+		w.Delivery += cnt
 	case "device":
 		k1 := allKinds[w.Choose(simrt.SShape, len(allKinds))]
 		k2 := allKinds[w.Choose(simrt.SShape, len(allKinds))]
@@ -481,6 +558,46 @@ func c19Effects(w *W) {
 				w.Failf("C19/device-side-effect", "after a refused Device call: %v", e)
 			}
 			w.Probe("device-refused")
+			// ... and nobody else consumes what arrives on either socket
+			for _, x := range []struct {
+				s    mangos.Socket
+				kind string
+			}{{s1, k1}, {s2, k2}} {
+				if !canRecv(x.kind) || !plainInbound(x.kind) {
+					continue
+				}
+				_ = x.s.SetOption(mangos.OptionRecvDeadline, 2*time.Millisecond)
+				addr := w.Addr("msg")
+				if x.s.Listen(addr) != nil {
+					continue
+				}
+				p := mn.Connect(addr)
+				w.Settle()
+				if p == nil {
+					continue
+				}
+				const nm = 6
+				for i := 0; i < nm; i++ {
+					p.Inject(inbound(x.kind, uint32(i+1), fmt.Sprintf("dev%d", i)))
+					w.Sleep(time.Millisecond)
+				}
+				w.Settle()
+				got := 0
+				for i := 0; i < nm+2; i++ {
+					c := w.Do("Recv", func() (interface{}, error) { return x.s.Recv() })
+					c.Wait(10 * time.Millisecond)
+					w.Settle()
+					if !c.Returned() || c.Err != nil {
+						break
+					}
+					got++
+				}
+				if got != nm {
+					w.Failf("C19/device-side-effect", "Device(%s,%s) was refused (%v), yet afterwards the application receives only %d of %d messages arriving on the %s socket: something else consumes them", k1, k2, err, got, nm, x.kind)
+					return
+				}
+				w.Probe("device-refused-no-forwarder")
+			}
 		} else {
 			w.Probe("device-accepted")
 		}
